@@ -724,7 +724,7 @@ def compare_chunk(args):
         if (get_err, get_addrs if get_err is None else None) != (spec_err, spec_addrs if spec_err is None else None):
             report(disag, "model-vs-spec", "model getRequired differs from Spec.select (theorem says equal)",
                    dict(case, model=m_get, spec=spec_g))
-        if probs and not bad:
+        if probs:
             report(viol, "c02:%s:%s" % (probs[0], kinds), "result coordinates of %r: %s" % (text, probs),
                    dict(case, impl=req, prop="C02"))
         # exists()
@@ -900,4 +900,39 @@ def collector_chunk(args):
                     viol.append((sig, "%s query %r (collector, scalar operands) raised %s at %s" % (mode, text, e, out.get("site")),
                                  {"doc": doc, "path": text, "items": [text], "prop": "C15", "impl": out}))
         stats["in_quantifier" if scalar_only else "nonscalar_operand"] += 1
+    return stats, viol
+
+
+# --------------------------------------------------------------------------- keyword segments (C15, direct check only)
+
+KEYWORD_ITEMS = ["[unique()]", "[distinct()]", "[unique(a)]", "[distinct(a)]", "[max(a)]", "[min(a)]", "[max()]", "[min()]",
+                 "[has_child(a)]", "[!has_child(a)]", "[name()]", "[parent()]", "[parent(2)]", "[max(b)]", "[unique(b)]",
+                 "[!max(a)]", "[!unique()]", "[!distinct()]"]
+
+
+def keyword_chunk(args):
+    """cases: (doc, items).  Direct C15 check of paths holding a keyword segment (outside the evaluator model)."""
+    cases, _opts = args
+    core.use_repo()
+    stats = {"n": 0, "ok": 0, "ypath": 0, "crash": 0}
+    viol = []
+    per_sig = {}
+    for doc, items in cases:
+        stats["n"] += 1
+        text = path_text(items, False)
+        for mode in ("req", "exists"):
+            out, _d, _t = run_query(doc, text, mode)
+            e = out.get("err")
+            if e is None:
+                stats["ok"] += 1
+            elif e == "ypath":
+                stats["ypath"] += 1
+            else:
+                stats["crash"] += 1
+                sig = "crash:%s@%s" % (e.split(":", 1)[-1], out.get("site"))
+                n = per_sig.get(sig, 0)
+                per_sig[sig] = n + 1
+                if n < 3:
+                    viol.append((sig, "%s query %r (keyword segment) raised %s at %s" % (mode, text, e, out.get("site")),
+                                 {"doc": doc, "path": text, "items": items, "prop": "C15", "impl": out}))
     return stats, viol
